@@ -80,6 +80,25 @@ def nlp_diff(p):
                                 expected="every collocation / node quantity has its own decision variable", **out)
                 owner[cols[0]] = label
         return dict(status="not-reproduced", detail="all %d handle entries are distinct solver variables" % len(owner), **out)
+    if "physical-is-declared-scale" in p.get("obligation", ""):
+        from contracts.oracle import scaled_handles
+        bad = []
+        n = 0
+        for label, h, sc in scaled_handles(spec, meth):
+            h = ca.vec(ca.MX(h))
+            F = ca.Function("S", [opti.x, opti.p], [ca.jacobian(h, opti.x), h])
+            pv = np.array(opti.debug.value(opti.p, opti.value_parameters())).reshape(-1) if opti.p.numel() else np.zeros(0)
+            J, h0 = F(np.zeros(opti.x.numel()), pv)
+            J, h0, scv = np.array(J), np.array(h0).reshape(-1), np.array(ca.DM(sc)).reshape(-1)
+            for r in range(J.shape[0]):
+                n += 1
+                nz = np.nonzero(J[r])[0]
+                if len(nz) != 1 or abs(J[r, nz[0]] - scv[r]) > 1e-9 * (1 + abs(scv[r])) or abs(h0[r]) > 1e-12:
+                    bad.append(dict(quantity="%s entry %d" % (label, r), declared_scale=float(scv[r]),
+                                    observed="d(physical)/d(solver variables) has nonzeros %s, offset %g" % ([float(J[r, j]) for j in nz], h0[r])))
+        if bad:
+            return dict(status="confirmed", failing_input=out["instance"], problems=[dict(what="physical quantity is not declared scale * own solver variable", entries=bad[:8], count=len(bad), checked=n)], **out)
+        return dict(status="not-reproduced", detail="all %d scaled entries are declared scale * one solver variable" % n, **out)
     if p.get("parts") and "init" in p["parts"]:
         from contracts.oracle import expected_initial
         bad = []
@@ -111,15 +130,26 @@ def nlp_diff(p):
     ss = None
     if p.get("parts") and "ss-states" in p["parts"] and spec.method == "SS":
         extra = [ca.vcat([ca.MX(a) for a in meth.X]), ca.vcat([ca.MX(a) for a in orc.X])]
-    F = ca.Function("F", [x, par], [opti.g, opti.lbg, opti.ubg, ca.veccat(*exp) if exp else ca.MX(0, 1), opti.f, ca.MX(orc.J)] + extra)
+    outs = [opti.g, opti.lbg, opti.ubg, ca.veccat(*exp) if exp else ca.MX(0, 1), opti.f, ca.MX(orc.J)] + extra
+    # Opti lists only the symbols that occur in the problem (opti.x / opti.p): a declared parameter column or variable
+    # that the transcription never uses is still a legitimate operand of the oracle -> extra input with its set value
+    known = ca.vertcat(x, par)
+    inactive = [s_ for s_ in ca.symvar(ca.veccat(*[ca.vec(o) for o in outs])) if not ca.depends_on(known, s_)]
+    F = ca.Function("F", [x, par] + inactive, outs)
     if F.has_free():
         return dict(status="error", detail="free symbols %s" % F.get_free(), **out)
     rs = np.random.RandomState(p.get("seed", 0))
     pv = np.array(opti.debug.value(par, opti.value_parameters())).reshape(-1) if par.numel() else np.zeros(0)
+    iv = []
+    for s_ in inactive:
+        try:
+            iv.append(np.array(opti.debug.value(s_, opti.value_parameters())))
+        except Exception:
+            iv.append(rs.uniform(0.3, 1.4, size=s_.shape))
     xs, G, L, U, EXP, Fv, Jv, XS = [], [], [], [], [], [], [], []
     for _ in range(3):
         xv = rs.uniform(0.3, 1.4, size=x.numel())
-        o = [np.array(v).reshape(-1) for v in F(xv, pv)]
+        o = [np.array(v).reshape(-1) for v in F(xv, pv, *iv)]
         xs.append(xv); G.append(o[0]); L.append(o[1]); U.append(o[2]); EXP.append(o[3]); Fv.append(o[4]); Jv.append(o[5])
         if extra:
             XS.append((o[6], o[7]))
